@@ -100,4 +100,134 @@ theorem undoTxs_frame (e : Env) (l : List Nat) (s : St) :
     obtain ⟨a1, a2, a3⟩ := undoTx_frame e (undoTxs e rest s) (e.tx i)
     exact ⟨f1.trans (a1.trans ih.1), f2.trans (a2.trans ih.2.1), f3.trans (a3.trans ih.2.2)⟩
 
+-- ------------------------------------------------------------------ replay of blocks and chains
+
+/-- what `todoBlock` returns when it succeeds -/
+def replayBlock (e : Env) (s : St) (b : Block) : St :=
+  { replayTxs e b.prop b.txs s with pointer := b.id, irrev := nextIrrev e.window s.irrev b.height }
+
+theorem todoBlock_eq (e : Env) (s s' : St) (lh : Int) (b : Block) (h : todoBlock e s lh b = some s') :
+    s' = replayBlock e s b ∧ ∃ s2, applyBlockTxs e lh b.prop [] b.txs s = some (s2, .ok) := by
+  unfold todoBlock at h
+  split at h
+  · cases h
+  · split at h
+    · rename_i s2 hfwd
+      simp only [Option.some.injEq] at h
+      refine ⟨?_, s2, hfwd⟩
+      rw [← h, applyBlockTxs_ok_eq e lh b.prop b.txs s s2 hfwd]
+      rfl
+    · cases h
+
+/-- blocks applied one after the other (oldest first) -/
+def replayChain (e : Env) (l : List Nat) (s : St) : St :=
+  l.foldl (fun st bi => replayBlock e st (e.block bi)) s
+
+theorem replayChain_cons (e : Env) (bi : Nat) (rest : List Nat) (s : St) :
+    replayChain e (bi :: rest) s = replayChain e rest (replayBlock e s (e.block bi)) := rfl
+
+theorem replayChain_snoc (e : Env) (l : List Nat) (bi : Nat) (s : St) :
+    replayChain e (l ++ [bi]) s = replayBlock e (replayChain e l s) (e.block bi) := by
+  unfold replayChain
+  rw [List.foldl_append]; rfl
+
+/-- a completed apply loop of `walk` is the replay of its list -/
+theorem todoAll_eq (e : Env) (lh : Int) (l : List Nat) (st : St) (h : (walk.todoAll e lh l st).2 = true) :
+    (walk.todoAll e lh l st).1 = replayChain e l st := by
+  induction l generalizing st with
+  | nil => rfl
+  | cons bi rest ih =>
+    unfold walk.todoAll at h ⊢
+    split
+    · rename_i st' heq
+      simp only [heq] at h
+      rw [ih st' h, replayChain_cons, (todoBlock_eq e st st' lh (e.block bi) heq).1]
+    · rename_i heq
+      simp [heq] at h
+
+/-- `TRefines` does not look at pointer, irreversible height, pool -/
+theorem TRefines.setMeta {x r : St} (h : TRefines x r) (p p' : Nat) (i i' : Int) (q q' : List Nat) :
+    TRefines { x with pointer := p, irrev := i, pool := q } { r with pointer := p', irrev := i', pool := q' } :=
+  ⟨⟨h.obs.U, h.obs.ver, h.obs.total⟩, h.ZU, h.ZD⟩
+
+theorem TRefines.of_tables {x x' r r' : St} (h : TRefines x r)
+    (hx : x'.U = x.U ∧ x'.ZU = x.ZU ∧ x'.ZD = x.ZD ∧ x'.total = x.total)
+    (hr : r'.U = r.U ∧ r'.ZU = r.ZU ∧ r'.ZD = r.ZD ∧ r'.total = r.total) : TRefines x' r' := by
+  obtain ⟨x1, x2, x3, x4⟩ := hx
+  obtain ⟨r1, r2, r3, r4⟩ := hr
+  refine ⟨⟨fun k => ?_, fun key => ?_, ?_⟩, fun k => ?_, fun k m => ?_⟩
+  · rw [x1, r1]; exact h.obs.U k
+  · exact (curVer_congr_tables x' x key (by rw [x2]) (by rw [x3])).trans
+      ((h.obs.ver key).trans (curVer_congr_tables r r' key (by rw [r2]) (by rw [r3])))
+  · rw [x4, r4]; exact h.obs.total
+  · rw [x2, r2]; exact h.ZU k
+  · rw [x3, r3]; exact h.ZD k m
+
+theorem blockStep_trefines (e : Env) (prop : String) (i : Nat) (x r : St) (h : TRefines x r) :
+    TRefines (blockStep e prop i x) (blockStep e prop i r) :=
+  payFee_trefines _ _ _ _ _ _ (applyTx_trefines x r (e.tx i) h)
+
+theorem replayTxs_trefines (e : Env) (prop : String) (l : List Nat) (x r : St) (h : TRefines x r) :
+    TRefines (replayTxs e prop l x) (replayTxs e prop l r) := by
+  induction l generalizing x r with
+  | nil => exact h
+  | cons i rest ih => exact ih _ _ (blockStep_trefines e prop i x r h)
+
+theorem replayBlock_trefines (e : Env) (b : Block) (x r : St) (h : TRefines x r) :
+    TRefines (replayBlock e x b) (replayBlock e r b) :=
+  (replayTxs_trefines e b.prop b.txs x r h).of_tables ⟨rfl, rfl, rfl, rfl⟩ ⟨rfl, rfl, rfl, rfl⟩
+
+/-- replay is monotone for the refinement: no admission check is involved -/
+theorem replayChain_trefines (e : Env) (l : List Nat) (x r : St) (h : TRefines x r) :
+    TRefines (replayChain e l x) (replayChain e l r) := by
+  induction l generalizing x r with
+  | nil => exact h
+  | cons bi rest ih => exact ih _ _ (replayBlock_trefines e (e.block bi) x r h)
+
+theorem replayTxs_KVInv (e : Env) (prop : String) (l : List Nat) (s : St)
+    (hid : ∀ i ∈ l, e.tx (e.tx i).id = e.tx i) (h : KVInv e s) : KVInv e (replayTxs e prop l s) := by
+  induction l generalizing s with
+  | nil => exact h
+  | cons i rest ih =>
+    rw [replayTxs_cons]
+    exact ih _ (fun j hj => hid j (List.mem_cons_of_mem _ hj))
+      (blockStep_KVInv e prop i s (hid i List.mem_cons_self) h)
+
+theorem replayBlock_KVInv (e : Env) (b : Block) (s : St)
+    (hid : ∀ i ∈ b.txs, e.tx (e.tx i).id = e.tx i) (h : KVInv e s) : KVInv e (replayBlock e s b) :=
+  KVInv_of_tables e _ _ (replayTxs_KVInv e b.prop b.txs s hid h) rfl rfl
+
+/-- the pool as a sequence of applications (the pool field itself is not modelled here) -/
+def applyPool (e : Env) (l : List Nat) (s : St) : St := l.foldl (fun st i => applyTx st (e.tx i)) s
+
+theorem applyPool_cons (e : Env) (i : Nat) (rest : List Nat) (s : St) :
+    applyPool e (i :: rest) s = applyPool e rest (applyTx s (e.tx i)) := rfl
+
+/-- the roll-back loop of `walk` step 1 -/
+def rollback (e : Env) (l : List Nat) (s : St) : St := l.reverse.foldl (fun st i => undoTx e st (e.tx i)) s
+
+theorem rollback_cons (e : Env) (i : Nat) (rest : List Nat) (s : St) :
+    rollback e (i :: rest) s = undoTx e (rollback e rest s) (e.tx i) := by
+  unfold rollback
+  simp only [List.reverse_cons, List.foldl_append, List.foldl_cons, List.foldl_nil]
+
+/-- checkable form of "no output row of transaction `i` exists" -/
+theorem absent_of_rows (u : List (Ver × UItem)) (i : Nat) (h : ∀ p ∈ u, p.1.1 ≠ i) :
+    ∀ o, lookup u (i, o) = none := by
+  intro o
+  cases hl : lookup u (i, o) with
+  | none => rfl
+  | some v => exact absurd rfl (h _ (lookup_mem u (i, o) v hl))
+
+/-- checkable form of "the forward run succeeds" -/
+theorem fwd_of_res (e : Env) (lh : Int) (prop : String) (l : List Nat) (s : St)
+    (h : (applyBlockTxs e lh prop [] l s).map (·.2) = some .ok) :
+    ∃ s2, applyBlockTxs e lh prop [] l s = some (s2, .ok) := by
+  cases hr : applyBlockTxs e lh prop [] l s with
+  | none => simp [hr] at h
+  | some p =>
+    obtain ⟨s2, res⟩ := p
+    simp only [hr, Option.map_some, Option.some.injEq] at h
+    exact ⟨s2, by rw [← h]⟩
+
 end XV.Chain
